@@ -15,7 +15,8 @@ VARIABLES l, on,     \* on: between "ready" and "cleanup" of the current trace
                      \* cancelled context - is visible inside it); they are settled at the next quiescence marker
 tvars == <<vars, l, on, owed>>
 
-TraceCancelOf == [x1 |-> "r1", x2 |-> "r2", x3 |-> "r3", x4 |-> "r4"]
+\* (s<i>: calls whose wire id is the JSON string "<i>"; y<i> the cancellation notice naming it)
+TraceCancelOf == [x1 |-> "r1", x2 |-> "r2", x3 |-> "r3", x4 |-> "r4", y1 |-> "s1", y2 |-> "s2"]
 TraceDupOf == [d1 |-> "r1", d2 |-> "r2"]
 CancelOfInv(r) == CHOOSE c \in DOMAIN CancelOf : CancelOf[c] = r
 HasCancel(r) == \E c \in DOMAIN CancelOf : CancelOf[c] = r
